@@ -475,3 +475,168 @@ Proof.
   - apply a_ws_field_pair; [exact Hcn|exact Hl].
   - cbn [fmt_lexes]. cbv zeta. rewrite Hname, Hkey. exact Hl.
 Qed.
+
+(* ---------------------------------------------------------------- the Uploaders formatter absorbs *)
+Definition no_char (d : N) (s : str) : bool := forallb (fun ch => negb (ch =? d)%N) s.
+
+Lemma split_on_go_nochar d a : forall X acc, no_char d a = true ->
+  split_on_go d acc (a ++ X) = split_on_go d (rev a ++ acc) X.
+Proof.
+  induction a as [|ch r IH]; intros X acc H; [reflexivity|]. cbn [no_char forallb] in H.
+  apply andb_true_iff in H. destruct H as [Hc Hr]. apply negb_true_iff in Hc.
+  cbn [app split_on_go rev]. rewrite Hc, (IH X (ch :: acc) Hr), <- app_assoc. reflexivity.
+Qed.
+
+Lemma split_on_single d a : no_char d a = true -> split_on d a = [a].
+Proof.
+  intros H. unfold split_on. pose proof (split_on_go_nochar d a [] [] H) as E. rewrite !app_nil_r in E. rewrite E. cbn [split_on_go].
+  rewrite rev_involutive. reflexivity.
+Qed.
+
+Lemma split_on_cons d a X : no_char d a = true -> split_on d (a ++ d :: X) = a :: split_on d X.
+Proof.
+  intros H. unfold split_on. rewrite (split_on_go_nochar d a _ [] H), app_nil_r. cbn [split_on_go].
+  rewrite N.eqb_refl, rev_involutive. reflexivity.
+Qed.
+
+Lemma split_on_go_pieces d s : forall acc p, no_char d acc = true -> In p (split_on_go d acc s) -> no_char d p = true.
+Proof.
+  induction s as [|ch r IH]; intros acc p Ha Hp; cbn [split_on_go] in Hp.
+  - destruct Hp as [<-|[]]. unfold no_char in *. rewrite forallb_forall in *. intros x Hx. apply Ha. apply in_rev. exact Hx.
+  - destruct (ch =? d)%N eqn:E.
+    + destruct Hp as [<-|Hp]; [|apply (IH [] p eq_refl Hp)].
+      unfold no_char in *. rewrite forallb_forall in *. intros x Hx. apply Ha. apply in_rev. exact Hx.
+    + apply (IH (ch :: acc) p); [|exact Hp]. cbn [no_char forallb]. rewrite E. exact Ha.
+Qed.
+Lemma split_on_pieces d s p : In p (split_on d s) -> no_char d p = true.
+Proof. apply (split_on_go_pieces d s [] p eq_refl). Qed.
+Lemma split_on_nonempty d s : split_on d s <> [].
+Proof.
+  unfold split_on. generalize (@nil N) as acc. induction s as [|ch r IH]; intros acc; cbn [split_on_go]; [discriminate|].
+  destruct (ch =? d)%N; [discriminate|apply IH].
+Qed.
+
+(* drop_while *)
+Lemma drop_while_all {A} (p : A -> bool) a b : forallb p a = true -> drop_while p (a ++ b) = drop_while p b.
+Proof. induction a as [|x r IH]; [reflexivity|]. cbn [forallb app drop_while]. intros H. apply andb_true_iff in H. destruct H as [H1 H2]. rewrite H1. apply IH. exact H2. Qed.
+Lemma drop_while_stop {A} (p : A -> bool) l : match l with [] => True | x :: _ => p x = false end -> drop_while p l = l.
+Proof. destruct l as [|x r]; [reflexivity|]. intros H. cbn [drop_while]. rewrite H. reflexivity. Qed.
+Lemma drop_while_head {A} (p : A -> bool) l : match drop_while p l with [] => True | x :: _ => p x = false end.
+Proof. induction l as [|x r IH]; [exact I|]. cbn [drop_while]. destruct (p x) eqn:E; [exact IH|exact E]. Qed.
+Lemma drop_while_split {A} (p : A -> bool) l : exists a, forallb p a = true /\ l = a ++ drop_while p l.
+Proof.
+  induction l as [|x r IH]; [exists []; split; reflexivity|]. cbn [drop_while]. destruct (p x) eqn:E.
+  - destruct IH as (a & Ha & Er). exists (x :: a). cbn [forallb app]. rewrite E, Ha. split; [reflexivity|]. f_equal. exact Er.
+  - exists []. split; reflexivity.
+Qed.
+Lemma drop_while_sub {A} (p q : A -> bool) l : forallb q l = true -> forallb q (drop_while p l) = true.
+Proof. induction l as [|x r IH]; [reflexivity|]. cbn [forallb drop_while]. intros H. apply andb_true_iff in H. destruct H as [H1 H2]. destruct (p x); [apply IH; exact H2|cbn [forallb]; rewrite H1, H2; reflexivity]. Qed.
+
+(* trimmed: no whitespace at either end *)
+Definition head_ok (s : str) : Prop := match s with [] => True | ch :: _ => is_whitespace ch = false end.
+Definition trimmed (s : str) : Prop := head_ok s /\ head_ok (rev s).
+
+Lemma trim_trimmed x : trimmed (trim x).
+Proof.
+  unfold trim, trimmed. set (y := drop_while is_whitespace x). set (z := drop_while is_whitespace (rev y)).
+  split; [|rewrite rev_involutive; apply drop_while_head].
+  destruct (drop_while_split is_whitespace (rev y)) as (a & Ha & E). fold z in E.
+  assert (Ey : y = rev z ++ rev a) by (rewrite <- (rev_involutive y), E, rev_app_distr; reflexivity).
+  pose proof (drop_while_head is_whitespace x) as Hy. fold y in Hy.
+  destruct (rev z) as [|ch r] eqn:Ez; [exact I|]. rewrite Ey in Hy. exact Hy.
+Qed.
+
+Lemma trim_absorbs lead p : forallb is_whitespace lead = true -> trimmed p -> trim (lead ++ p) = p.
+Proof.
+  intros Hl [H1 H2]. unfold trim. rewrite (drop_while_all _ lead p Hl), (drop_while_stop _ p H1), (drop_while_stop _ (rev p) H2).
+  apply rev_involutive.
+Qed.
+
+Lemma trim_no_char d x : no_char d x = true -> no_char d (trim x) = true.
+Proof.
+  intros H. unfold trim, no_char in *. rewrite forallb_forall. intros ch Hc. apply in_rev in Hc.
+  assert (Hr : forallb (fun c => negb (c =? d)%N) (rev (drop_while is_whitespace x)) = true).
+  { rewrite forallb_forall. intros y Hy. apply in_rev in Hy. pose proof (drop_while_sub is_whitespace _ x H) as Hs.
+    rewrite forallb_forall in Hs. apply Hs. exact Hy. }
+  pose proof (drop_while_sub is_whitespace _ _ Hr) as Hs. rewrite forallb_forall in Hs. apply Hs. exact Hc.
+Qed.
+
+Lemma lead_char_ws ch : lead_char ch = true -> is_whitespace ch = true /\ (ch =? 44)%N = false.
+Proof.
+  unfold lead_char, is_indent. intros H.
+  destruct (ch =? 32)%N eqn:E1; [apply N.eqb_eq in E1; subst; split; reflexivity|].
+  destruct (ch =? 9)%N eqn:E2; [apply N.eqb_eq in E2; subst; split; reflexivity|].
+  destruct (ch =? 10)%N eqn:E3; [apply N.eqb_eq in E3; subst; split; reflexivity|]. discriminate.
+Qed.
+
+Lemma lead_all lead : forallb lead_char lead = true -> forallb is_whitespace lead = true /\ no_char 44 lead = true.
+Proof.
+  induction lead as [|ch r IH]; [split; reflexivity|]. cbn [forallb no_char]. intros H. apply andb_true_iff in H. destruct H as [H1 H2].
+  destruct (lead_char_ws ch H1) as [Hw Hc]. destruct (IH H2) as [I1 I2]. rewrite Hw, Hc, I1. split; [reflexivity|exact I2].
+Qed.
+
+Definition sep : str := [44%N; 10%N].
+Lemma join_cons2 p p2 r : join sep (p :: p2 :: r) = p ++ sep ++ join sep (p2 :: r).
+Proof. reflexivity. Qed.
+
+Lemma split_join ps : forall lead, ps <> [] -> no_char 44 lead = true -> Forall (fun p => no_char 44 p = true) ps ->
+  split_on 44 (lead ++ join sep ps) =
+  match ps with [] => [] | p :: rest => (lead ++ p) :: map (fun q => 10%N :: q) rest end.
+Proof.
+  induction ps as [|p r IH]; intros lead Hne Hl Hps; [congruence|]. inversion Hps as [|? ? Hp Hr]; subst.
+  destruct r as [|p2 r2].
+  - cbn [join map]. apply split_on_single. unfold no_char in *. rewrite forallb_app, Hl, Hp. reflexivity.
+  - rewrite join_cons2. unfold sep at 1. cbn [app]. rewrite app_assoc, split_on_cons.
+    + f_equal. change (10%N :: join sep (p2 :: r2)) with ([10%N] ++ join sep (p2 :: r2)).
+      rewrite (IH [10%N] ltac:(discriminate) eq_refl Hr). reflexivity.
+    + unfold no_char in *. rewrite forallb_app, Hl, Hp. reflexivity.
+Qed.
+
+Theorem uploaders_absorbing : absorbing (fun _ v => fmt_uploaders v).
+Proof.
+  intros _ v lead Hlead. destruct (lead_all lead Hlead) as [Hw Hc].
+  unfold fmt_uploaders at 1. fold sep.
+  set (ps := map trim (split_on 44 v)).
+  assert (Hne : ps <> []) by (unfold ps; pose proof (split_on_nonempty 44 v); destruct (split_on 44 v); [congruence|discriminate]).
+  assert (Hnc : Forall (fun p => no_char 44 p = true) ps).
+  { unfold ps. apply Forall_forall. intros p Hp. apply in_map_iff in Hp. destruct Hp as (q & <- & Hq).
+    apply trim_no_char. apply (split_on_pieces 44 v q Hq). }
+  assert (Htr : Forall trimmed ps).
+  { unfold ps. apply Forall_forall. intros p Hp. apply in_map_iff in Hp. destruct Hp as (q & <- & _). apply trim_trimmed. }
+  change (fmt_uploaders v) with (join sep ps). rewrite (split_join ps lead Hne Hc Hnc).
+  destruct ps as [|p rest]; [congruence|]. inversion Htr as [|? ? Hp Hrest]; subst. cbn [map].
+  rewrite (trim_absorbs lead p Hw Hp). f_equal. f_equal. rewrite map_map.
+  rewrite <- (map_id rest) at 2. apply map_ext_in. intros q Hq. rewrite Forall_forall in Hrest.
+  apply (trim_absorbs [10%N] q eq_refl (Hrest q Hq)).
+Qed.
+
+Theorem uploaders_no_lead : no_lead (fun _ v => fmt_uploaders v).
+Proof.
+  intros _ v. unfold fmt_uploaders. fold sep.
+  assert (Htr : Forall trimmed (map trim (split_on 44 v))).
+  { apply Forall_forall. intros p Hp. apply in_map_iff in Hp. destruct Hp as (q & <- & _). apply trim_trimmed. }
+  assert (Hnl : forall ch, is_whitespace ch = false -> lead_char ch = false).
+  { intros ch Hc. destruct (lead_char ch) eqn:E; [|reflexivity]. destruct (lead_char_ws ch E) as [Hw _]. congruence. }
+  destruct (map trim (split_on 44 v)) as [|p r]; [exact I|]. inversion Htr as [|? ? [Hp _] _]; subst.
+  destruct r as [|p2 r2].
+  - cbn [join]. destruct p as [|ch p']; [exact I|]. apply Hnl. exact Hp.
+  - rewrite join_cons2. destruct p as [|ch p']; [reflexivity|]. cbn [app]. apply Hnl. exact Hp.
+Qed.
+
+(* a second application changes nothing for an absorbing formatter, comparators on names *)
+Theorem absorbing_idem_proof c psort pcmp esort ecmp g d :
+  ind_ok c = true -> pcmp_agrees psort pcmp -> ecmp_agrees esort ecmp -> wf_doc d = true ->
+  doc_shaped (Some g) (lift d) -> absorbing g -> no_lead g ->
+  pair_cmp_consistent ecmp -> para_cmp_consistent pcmp ->
+  match ecmp with Some e => forall a b a' b', fst a = fst a' -> fst b = fst b' -> e a b = e a' b' | None => True end ->
+  pcmp_invariant_on pcmp ecmp (Some g) (lift d) ->
+  let l1 := a_ws_doc pcmp (a_ws_items c ecmp (Some g)) (lift d) in
+  std_ws fixed c psort esort (Some (pure_fmt g)) (ltree_of l1) = Ok (ltree_of l1).
+Proof.
+  intros Hind Hp He Hwf Hsh Ha Hn Hce Hcp Hnames Hip.
+  assert (Hl : lwf (lift d) = true) by (apply lwf_lift; exact Hwf).
+  pose proof (lwf_fields_ok (Some g) (lift d) Hl Hsh) as Hok.
+  apply formatter_idem_proof; try assumption.
+  - intros its f Hi Hf. destruct (Hok its f Hi Hf) as (_ & Hc & _). apply absorbing_stable; try assumption. apply (Hsh its f Hi Hf).
+  - intros its f f' Hi Hf Hf'. destruct ecmp as [e|]; [|exact I]. apply Hnames; reflexivity.
+Qed.
